@@ -106,3 +106,148 @@ package multiparty
 //@   property C15
 //@   requires len(activesPoints) < cmb.threshold
 //@   ensures !isnil(err)
+
+// ---------------------------------------------------------------------------------------------
+// Serialization, count level (property C08).  For every serializable type: WriteTo reports, on
+// success, exactly the number of bytes the value announces (announced(x): the result of running
+// x.BinarySize() on the same state) and leaves nothing unflushed in the buffered writer
+// (pending(w) == 0); ReadFrom reports, on success, exactly the announced size of the object it
+// rebuilt, whatever the receiver held before.  bsize(x) is the abstract announced size used at
+// call sites.  `nilable`: optional pointer fields of the inputs may be nil.
+// ---------------------------------------------------------------------------------------------
+
+//@ afunc EvaluationKeyGenShare.BinarySize
+//@   trusted definition: bsize(x) is what x.BinarySize() returns, assumed to be a function of the contents of x
+//@   ensures result == bsize(share) && 0 <= result
+
+//@ afunc EvaluationKeyGenShare.WriteTo
+//@   property C08
+//@   nilable
+//@   gset pending(w) = *
+//@   ensures implies(isnil(err), n == announced(share))
+//@   ensures implies(isnil(err), pending(w) == 0)
+
+//@ afunc EvaluationKeyGenShare.ReadFrom
+//@   property C08
+//@   nilable
+//@   havoc share
+//@   ensures implies(isnil(err), n == announced(share))
+
+//@ afunc GaloisKeyGenShare.BinarySize
+//@   trusted definition: bsize(x) is what x.BinarySize() returns, assumed to be a function of the contents of x
+//@   ensures result == bsize(share) && 0 <= result
+
+//@ afunc GaloisKeyGenShare.WriteTo
+//@   property C08
+//@   nilable
+//@   gset pending(w) = *
+//@   ensures implies(isnil(err), n == announced(share))
+//@   ensures implies(isnil(err), pending(w) == 0)
+
+//@ afunc GaloisKeyGenShare.ReadFrom
+//@   property C08
+//@   nilable
+//@   havoc share
+//@   ensures implies(isnil(err), n == announced(share))
+
+//@ afunc KeySwitchShare.BinarySize
+//@   trusted definition: bsize(x) is what x.BinarySize() returns, assumed to be a function of the contents of x
+//@   ensures result == bsize(ckss) && 0 <= result
+
+//@ afunc KeySwitchShare.WriteTo
+//@   property C08
+//@   nilable
+//@   gset pending(w) = *
+//@   ensures implies(isnil(err), n == announced(ckss))
+//@   ensures implies(isnil(err), pending(w) == 0)
+
+//@ afunc KeySwitchShare.ReadFrom
+//@   property C08
+//@   nilable
+//@   havoc ckss
+//@   ensures implies(isnil(err), n == announced(ckss))
+
+//@ afunc PublicKeyGenShare.BinarySize
+//@   trusted definition: bsize(x) is what x.BinarySize() returns, assumed to be a function of the contents of x
+//@   ensures result == bsize(share) && 0 <= result
+
+//@ afunc PublicKeyGenShare.WriteTo
+//@   property C08
+//@   nilable
+//@   gset pending(w) = *
+//@   ensures implies(isnil(err), n == announced(share))
+//@   ensures implies(isnil(err), pending(w) == 0)
+
+//@ afunc PublicKeyGenShare.ReadFrom
+//@   property C08
+//@   nilable
+//@   havoc share
+//@   ensures implies(isnil(err), n == announced(share))
+
+//@ afunc PublicKeySwitchShare.BinarySize
+//@   trusted definition: bsize(x) is what x.BinarySize() returns, assumed to be a function of the contents of x
+//@   ensures result == bsize(share) && 0 <= result
+
+//@ afunc PublicKeySwitchShare.WriteTo
+//@   property C08
+//@   nilable
+//@   gset pending(w) = *
+//@   ensures implies(isnil(err), n == announced(share))
+//@   ensures implies(isnil(err), pending(w) == 0)
+
+//@ afunc PublicKeySwitchShare.ReadFrom
+//@   property C08
+//@   nilable
+//@   havoc share
+//@   ensures implies(isnil(err), n == announced(share))
+
+//@ afunc RefreshShare.BinarySize
+//@   trusted definition: bsize(x) is what x.BinarySize() returns, assumed to be a function of the contents of x
+//@   ensures result == bsize(share) && 0 <= result
+
+//@ afunc RefreshShare.WriteTo
+//@   property C08
+//@   nilable
+//@   gset pending(w) = *
+//@   ensures implies(isnil(err), n == announced(share))
+//@   ensures implies(isnil(err), pending(w) == 0)
+
+//@ afunc RefreshShare.ReadFrom
+//@   property C08
+//@   nilable
+//@   havoc share
+//@   ensures implies(isnil(err), n == announced(share))
+
+//@ afunc RelinearizationKeyGenShare.BinarySize
+//@   trusted definition: bsize(x) is what x.BinarySize() returns, assumed to be a function of the contents of x
+//@   ensures result == bsize(share) && 0 <= result
+
+//@ afunc RelinearizationKeyGenShare.WriteTo
+//@   property C08
+//@   nilable
+//@   gset pending(w) = *
+//@   ensures implies(isnil(err), n == announced(share))
+//@   ensures implies(isnil(err), pending(w) == 0)
+
+//@ afunc RelinearizationKeyGenShare.ReadFrom
+//@   property C08
+//@   nilable
+//@   havoc share
+//@   ensures implies(isnil(err), n == announced(share))
+
+//@ afunc ShamirSecretShare.BinarySize
+//@   trusted definition: bsize(x) is what x.BinarySize() returns, assumed to be a function of the contents of x
+//@   ensures result == bsize(s) && 0 <= result
+
+//@ afunc ShamirSecretShare.WriteTo
+//@   property C08
+//@   nilable
+//@   gset pending(w) = *
+//@   ensures implies(isnil(err), n == announced(s))
+//@   ensures implies(isnil(err), pending(w) == 0)
+
+//@ afunc ShamirSecretShare.ReadFrom
+//@   property C08
+//@   nilable
+//@   havoc s
+//@   ensures implies(isnil(err), n == announced(s))
